@@ -5,7 +5,7 @@ set -e
 N="$1"; W="/tmp/w_$N"
 rm -rf "$W"; mkdir -p "$W"
 rsync -a --exclude target /repo/ "$W/repo/"
-rsync -a --exclude 'target' --exclude 'target-nb' --exclude replays --exclude .git /verif/ "$W/verif/"
+rsync -a --exclude target --exclude target-nb --exclude replays --exclude .git --exclude ".audit_*" /verif/ "$W/verif/"
 sed -i "s#\"/repo/#\"$W/repo/#" "$W/verif/harness/Cargo.toml"
 echo "$W/repo" > "$W/verif/.repo_path"
 echo "$W"
